@@ -999,3 +999,99 @@ pub fn gen_nest(seed: u64, count: usize) -> Vec<String> {
     }
     out
 }
+
+// ---------------------------------------------------------------------------------
+// SQLIVE: a product with the same cell on both sides (or two different cells), computed
+// while two other values are kept alive in registers by uses before and after it.
+
+pub fn gen_sqlive(seed: u64, count: usize) -> Vec<String> {
+    let mut r = Rng::new(seed ^ 0x5011);
+    let mut out = Vec::new();
+    let mut tries = 0;
+    while out.len() < count && tries < count * 10 {
+        tries += 1;
+        let mut e = Emit { out: String::new(), pos: 0 };
+        let (x, b, c) = (0i64, 5i64, 6i64);
+        for v in [x, b, c] {
+            e.goto(v);
+            e.out.push_str(*r.pick(&[",", ",", ",+"]));
+        }
+        // a linear combination of b and c into `dst`, preserving both (through `tmp`)
+        let lin = |e: &mut Emit, r: &mut Rng, dst: i64, tmp: i64| {
+            for v in [b, c] {
+                let k = *r.pick(&[1i64, 1, 2, 3]);
+                e.goto(v);
+                e.out.push_str("[-");
+                e.add_const(dst, k);
+                e.add_const(tmp, 1);
+                e.goto(v);
+                e.out.push(']');
+                e.goto(tmp);
+                e.out.push_str("[-");
+                e.add_const(v, 1);
+                e.goto(tmp);
+                e.out.push(']');
+            }
+            e.goto(dst);
+            e.out.push('.');
+        };
+        lin(&mut e, &mut r, 8, 9);
+        // the product into a far cell
+        let target = *r.pick(&[21i64, 12, 30]);
+        let second = if r.below(3) == 0 { b } else { x };
+        if second == x {
+            e.goto(x);
+            e.out.push_str("[-");
+            e.add_const(1, 1);
+            e.add_const(2, 1);
+            e.goto(x);
+            e.out.push(']');
+        } else {
+            // x * b, b preserved
+            e.goto(x);
+            e.out.push_str("[-");
+            e.add_const(1, 1);
+            e.goto(x);
+            e.out.push(']');
+            e.goto(b);
+            e.out.push_str("[-");
+            e.add_const(2, 1);
+            e.add_const(3, 1);
+            e.goto(b);
+            e.out.push(']');
+            e.goto(3);
+            e.out.push_str("[-");
+            e.add_const(b, 1);
+            e.goto(3);
+            e.out.push(']');
+        }
+        e.goto(1);
+        e.out.push_str("[-");
+        e.goto(2);
+        e.out.push_str("[-");
+        e.add_const(target, 1);
+        e.add_const(3, 1);
+        e.goto(2);
+        e.out.push(']');
+        e.goto(3);
+        e.out.push_str("[-");
+        e.add_const(2, 1);
+        e.goto(3);
+        e.out.push(']');
+        e.goto(1);
+        e.out.push(']');
+        e.goto(target);
+        e.out.push('.');
+        e.goto(x);
+        e.out.push('.');
+        lin(&mut e, &mut r, 10, 9);
+        if r.below(2) == 0 {
+            e.goto(2);
+            e.out.push('.');
+        }
+        if balanced(&e.out) && !out.contains(&e.out) {
+            out.push(e.out);
+        }
+    }
+    out
+}
